@@ -42,7 +42,7 @@ def task_names(tier):
     return names
 
 
-def run_task(name, tier):
+def _run_task(name, tier):
     fmt, rest = name.split('/', 1)
     if fmt == 'json':
         r = C02.run_task(rest, tier)
@@ -130,3 +130,26 @@ def t_noline(T, tier):
                     o.reason = 'emits %r' % wit
                     o.witness = {'kind': 'ztext', 'text': wit, 'value_kind': kind}
             T.explore(w, run, 'noline/%s/%s' % (ver, kind), allow_raise=lambda it, e: None)
+
+
+
+def run_task(name, tier):
+    """a grammar construct outside the E3 subset is an undecided obligation of this task (never a crash, never a verdict)"""
+    from hv.peg.grammar import OutOfGrammarSubset
+    from hv.vc.symex import Obligation
+    try:
+        return _run_task(name, tier)
+    except OutOfGrammarSubset as e:
+        o = Obligation('grammar-in-subset', 'unknown', 'relang-peg', 0.0, 'oos', reason='outside the E3 grammar subset: %s' % e, kind='subset')
+        return {'task': name, 'obligations': [o.to_json()], 'units': _guarded_units()}
+
+
+def _guarded_units():
+    try:
+        from hv.peg import grammar as G
+        from hv.frontend import extract
+        m = extract.module('hszinc.zincparser')
+        import hashlib
+        return [{'function': 'hszinc.zincparser (module source)', 'file': 'hszinc/zincparser.py', 'lines': 'all', 'ast_sha': hashlib.sha256(m.src.encode()).hexdigest()[:16]}]
+    except Exception:
+        return []
